@@ -94,7 +94,7 @@ func (p *Prog) tableMutations() []tableMutation {
 				}
 				obj := calleeObj(info, x)
 				if isFunc(obj, ygotPath, "MergeStructInto") && len(x.Args) >= 1 && rootedAtHolderR(info, x.Args[0]) {
-					out = append(out, tableMutation{Fn: fi, Kind: "merge", Node: x, Fresh: freshRoot(info, fi.Decl, x.Args[0])})
+					out = append(out, tableMutation{Fn: fi, Kind: "merge", Node: x, Fresh: freshRoot(info, fi.Decl, x.Args[0]) || freshViaCallers(p, fi, x.Args[0])})
 					return true
 				}
 				// mutating generated methods on the installed structure
@@ -154,8 +154,16 @@ func freshRoot(info *types.Info, fd *ast.FuncDecl, e ast.Expr) bool {
 				return false
 			}
 			def := soleDefinition(info, fd, v)
+			if def == nil {
+				return false
+			}
 			call, ok := ast.Unparen(def).(*ast.CallExpr)
 			if !ok {
+				// an alias of another local (e.g. the receiver binding of a spliced-in helper)
+				if _, isID := ast.Unparen(def).(*ast.Ident); isID && ast.Unparen(def) != e {
+					e = def
+					continue
+				}
 				return false
 			}
 			obj := calleeObj(info, call)
@@ -447,8 +455,14 @@ func ribFamily(c *Ctx, sel famSel) {
 }
 
 func objOfIdent(info *types.Info, e ast.Expr) types.Object {
-	if id, ok := ast.Unparen(e).(*ast.Ident); ok {
-		return info.ObjectOf(id)
+	switch x := ast.Unparen(e).(type) {
+	case *ast.Ident:
+		return info.ObjectOf(x)
+	case *ast.SelectorExpr:
+		// a field of a struct the function built itself is a variable of its own (pseudo.go)
+		if ps := pseudoFieldObj(info, x); ps != nil {
+			return ps
+		}
 	}
 	return nil
 }
@@ -1147,6 +1161,11 @@ func ruleMergeTotal(c *Ctx, ks []*Kind, helpers map[*types.Func]*helperInfo) {
 			for _, p := range paths {
 				mi := idx(p, "install")
 				if mi < 0 {
+					// the install step answers "done" (nil error) only after it merged the candidate: a success return
+					// that skipped the merge acknowledges an operation whose payload is not (all) in the RIB
+					if rs, ok := p.EndNode.(*ast.ReturnStmt); ok && p.End == "return" && len(rs.Results) > 0 && isNilIdent(info, rs.Results[len(rs.Results)-1]) && lastResultIsError(f) {
+						bad = "a path returns success without merging the candidate into the RIB (and without the delete-before-merge): the operation is acknowledged while the installed " + table + " entry is not the payload that was sent (" + p.describe(c.P) + ")"
+					}
 					continue
 				}
 				okDel := false
@@ -1287,7 +1306,16 @@ func aliasedSelectorPath(info *types.Info, fd *ast.FuncDecl, e ast.Expr) (types.
 		if !ok || v.IsField() {
 			break
 		}
-		def := soleDefinition(info, fd, v)
+		var def ast.Expr
+		// a parameter of a helper spliced into fd stands for the argument it is bound to
+		for _, fr := range framesIn(fd) {
+			if a, ok := fr.Binds[obj]; ok {
+				def = a
+			}
+		}
+		if def == nil {
+			def = soleDefinition(info, fd, v)
+		}
 		if def == nil {
 			break
 		}
@@ -1298,4 +1326,83 @@ func aliasedSelectorPath(info *types.Info, fd *ast.FuncDecl, e ast.Expr) (types.
 		obj, path = o2, append(append([]string{}, p2...), path...)
 	}
 	return obj, path
+}
+
+// freshViaCallers: fi is a method new to the rules, the merged structure is rooted at its receiver, and every caller
+// calls it on a RIB it allocated itself (freshRoot at the call site): a phase of a constructor-like function split
+// off into a helper.
+func freshViaCallers(p *Prog, fi *FuncInfo, e ast.Expr) bool {
+	if !isNewFunc(fi.Obj) || fi.Decl.Recv == nil {
+		return false
+	}
+	info := fi.Pkg.TypesInfo
+	recv := recvObj(info, fi.Decl)
+	// rooted at the receiver?
+	root := e
+	for {
+		root = ast.Unparen(root)
+		switch x := root.(type) {
+		case *ast.SelectorExpr:
+			root = x.X
+			continue
+		case *ast.IndexExpr:
+			root = x.X
+			continue
+		case *ast.CallExpr:
+			if se, ok := ast.Unparen(x.Fun).(*ast.SelectorExpr); ok {
+				root = se.X
+				continue
+			}
+		case *ast.Ident:
+			if v, ok := info.ObjectOf(x).(*types.Var); ok && !v.IsField() && types.Object(v) != recv {
+				if def := soleDefinition(info, fi.Decl, v); def != nil {
+					root = def
+					continue
+				}
+			}
+		}
+		break
+	}
+	if recv == nil || objOfIdent(info, root) != recv {
+		return false
+	}
+	callers := p.callGraph().callersOf(fi.Obj)
+	if len(callers) == 0 {
+		return false
+	}
+	for _, cl := range callers {
+		cfi := p.infoFor(cl)
+		if cfi == nil || cfi.Decl.Body == nil {
+			return false
+		}
+		cinfo := cfi.Pkg.TypesInfo
+		ok := false
+		bad := false
+		calls := callsIn(cfi.Decl.Body)
+		for _, fr := range framesIn(cfi.Decl) {
+			if fr.CalleeObj == fi.Obj && fr.Call != nil {
+				calls = append(calls, fr.Call) // spliced in: the replaced call
+			}
+		}
+		for _, call := range calls {
+			if calleeObj(cinfo, call) != types.Object(fi.Obj) {
+				continue
+			}
+			se, isSel := ast.Unparen(call.Fun).(*ast.SelectorExpr)
+			if isSel && freshRoot(cinfo, cfi.Decl, se.X) {
+				ok = true
+			} else {
+				bad = true
+			}
+		}
+		if !ok || bad {
+			return false
+		}
+	}
+	return true
+}
+
+func lastResultIsError(f *types.Func) bool {
+	rs := f.Type().(*types.Signature).Results()
+	return rs.Len() > 0 && isErrorType(rs.At(rs.Len()-1).Type())
 }
